@@ -748,15 +748,15 @@ class ServermapUpdater:
                 # configured earlier.
                 # Then set them in wherever we happen to want to set
                 # them.
-                ds = []
+                update_ds = []
                 # XXX: We do this above, too. Is there a good way to
                 # make the two routines share the value without
                 # introducing more roundtrips?
-                ds.append(reader.get_verinfo())
-                ds.append(reader.get_blockhashes())
-                ds.append(reader.get_block_and_salt(self.start_segment))
-                ds.append(reader.get_block_and_salt(self.end_segment))
-                d5 = deferredutil.gatherResults(ds)
+                update_ds.append(reader.get_verinfo())
+                update_ds.append(reader.get_blockhashes())
+                update_ds.append(reader.get_block_and_salt(self.start_segment))
+                update_ds.append(reader.get_block_and_salt(self.end_segment))
+                d5 = deferredutil.gatherResults(update_ds)
                 d5.addCallback(self._got_update_results_one_share, shnum)
             else:
                 d5 = defer.succeed(None)
